@@ -54,7 +54,8 @@ Definition vault_interest_with (calc : Z -> Z -> Z -> Z -> outcome Z) (now : Z) 
   else if negb (vs_pair_found v) then Err 3
   else if (vs_fee v =? 0) || vs_stable_mint v then Ok Untouched
   else
-    let bt := if vs_bh v =? 0 then vs_pair_bt v else vs_bt v in
+    (* the pair's stamp also when it is later than the vault's own (repair of C18-F2) *)
+    let bt := if (vs_bh v =? 0) || (vs_bt v <? vs_pair_bt v) then vs_pair_bt v else vs_bt v in
     float_site_with calc now bt (vs_debt v) (vs_fee v) (vs_tracker v) (vs_intacc v).
 Definition vault_interest (pow : Z -> Z -> Z) := vault_interest_with (calculation_of_rewards pow).
 
@@ -62,7 +63,7 @@ Definition vault_interest (pow : Z -> Z -> Z) := vault_interest_with (calculatio
    rate and time base are the arguments collectorLsr / collectorBt; an error ends the loop *)
 Definition vault_iterate_one_with (calc : Z -> Z -> Z -> Z -> outcome Z) (now lsr coll_bt vault_bh vault_bt amount_out : Z)
   (tracker : option Z) (intacc : Z) : outcome site_result :=
-  let bt := if vault_bh =? 0 then coll_bt else vault_bt in
+  let bt := if (vault_bh =? 0) || (vault_bt <? coll_bt) then coll_bt else vault_bt in
   float_site_with calc now bt amount_out lsr tracker intacc.
 Definition vault_iterate_one (pow : Z -> Z -> Z) := vault_iterate_one_with (calculation_of_rewards pow).
 
